@@ -702,3 +702,50 @@ _PEEK_MORE = [(SLS, "from construct import Struct, this", "from construct import
               (SLS, '    "platform_position" / platform_position_record,', '    NextRecord(30),\n    "platform_position" / platform_position_record,')]
 V("c05-peek-not-rewound", "C05", "M", SLS, "sar_leader_record = Struct(", _PEEK % "", "C05-F11", more=_PEEK_MORE)
 V("c05-eq-peek-rewound", ["C05", "C03", "C16"], "E", SLS, "sar_leader_record = Struct(", _PEEK % "            stream_seek(stream, -record_preamble.sizeof(), 1, path)\n", more=_PEEK_MORE)
+
+# ---------------------------------------------------------------- round 10 (performance pull requests)
+V("c10-eq-memo-pure-immutable", ["C10", "C07", "C15", "C13"], "E", DCD, "def parse_date(value):", "@functools.lru_cache(maxsize=512)\ndef parse_date(value):",
+  more=[(DCD, "import datetime\nimport re\n", "import datetime\nimport functools\nimport re\n")])
+V("c10-memo-reads-storage", ["C10", "C07"], "M", SUM, "def open_summary(mapper, path):", "@functools.lru_cache(maxsize=8)\ndef open_summary(mapper, path):", "read from storage once",
+  more=[(SUM, "import re\n", "import functools\nimport re\n")])
+V("c10-memo-hands-out-dict", ["C10", "C07"], "M", DCD, "def decode_scene_id(scene_id):", "@functools.lru_cache(maxsize=64)\ndef decode_scene_id(scene_id):", "same object",
+  more=[(DCD, "import datetime\nimport re\n", "import datetime\nimport functools\nimport re\n")])
+_POOL_IMG = '''    def _open(filename):
+        return sar_image.open_image(mapper, filename, records_per_chunk=records_per_chunk, create_cache=create_cache, use_cache=use_cache)
+
+    opened = {}
+
+    def _store(filename):
+        opened[filename] = _open(filename)
+
+    with ThreadPoolExecutor(max_workers=4) as pool:
+        %s
+    imagery_groups = [opened[name] for name in filenames["sar_imagery"] if name in opened]
+'''
+_OLD_IMG = '''    imagery_groups = list(
+        map(
+            curry(
+                sar_image.open_image,
+                mapper,
+                records_per_chunk=records_per_chunk,
+                create_cache=create_cache,
+                use_cache=use_cache,
+            ),
+            filenames["sar_imagery"],
+        )
+    )
+'''
+_POOL_IMPORT = [(IOO, "import fsspec\n", "from concurrent.futures import ThreadPoolExecutor\n\nimport fsspec\n")]
+V("c18-pool-map-never-consumed", "C18", "M", IOO, _OLD_IMG, _POOL_IMG % 'pool.map(_store, filenames["sar_imagery"])', "missing", more=_POOL_IMPORT)
+V("c18-eq-pool-map-consumed", ["C18", "C13", "C16"], "E", IOO, _OLD_IMG, _POOL_IMG % 'list(pool.map(_store, filenames["sar_imagery"]))', more=_POOL_IMPORT)
+V("c17-decoder-remembers-day", ["C17"], "M", DTY, '''        base = datetime.datetime(obj["year"], 1, 1)
+''', '''        if getattr(self, "_doy", None) != obj["day_of_year"]:
+            self._doy = obj["day_of_year"]
+            self._year_start = datetime.datetime(obj["year"], 1, 1)
+        base = self._year_start
+''', "C17-M8")
+V("c14-fast-path-empty-value", "C14", "M", SUM, "    match = entry_re.fullmatch(line)\n    if match is None:", '''    if line.endswith('"') and line[3:4] == "_" and line[:3].isalpha() and '="' in line:
+        head, _, value = line.partition('="')
+        return {"section": line[:3], "keyword": head[4:], "value": value[:-1]}
+    match = entry_re.fullmatch(line)
+    if match is None:''', "C14-S9")
